@@ -52,10 +52,34 @@ PrettyShape(line, m) ==
 
 LineOk(keys, line, m) == IF keys.fmt = "pattern" THEN line = P!Format(m.tokens, m.type) ELSE PrettyShape(line, m)
 
-\* does the sequence `lines` consist of `k` consecutive copies of a correct line for each message of `ms`?
-Delivered(keys, lines, ms, k) ==
+\* ColoredConsole (sinks/coloredconsole.cpp): a console sink in colour mode Auto wraps the line in the colour of the
+\* message type when its own stream is a terminal
+ColorPrefix(type) ==
+    CASE type = "debug"    -> <<27, 91, 57, 48, 109>>               \* ESC[90m
+      [] type = "info"     -> <<27, 91, 51, 50, 109>>               \* ESC[32m
+      [] type = "warning"  -> <<27, 91, 51, 51, 109>>               \* ESC[33m
+      [] type = "critical" -> <<27, 91, 51, 49, 109>>               \* ESC[31m
+      [] type = "fatal"    -> <<27, 91, 49, 59, 57, 49, 109>>       \* ESC[1;91m
+ColorReset == <<27, 91, 48, 109>>                                   \* ESC[0m
+
+\* one copy of a message's line on a console stream; `col` = this sink colours (its colour key is set and its stream is
+\* a terminal)
+ConsoleLineOk(keys, line, m, col) ==
+    IF col
+    THEN LET pre == ColorPrefix(m.type)
+             n == Len(line) - Len(pre) - Len(ColorReset)
+         IN  /\ n >= 0
+             /\ SubSeq(line, 1, Len(pre)) = pre
+             /\ SubSeq(line, Len(line) - Len(ColorReset) + 1, Len(line)) = ColorReset
+             /\ LineOk(keys, SubSeq(line, Len(pre) + 1, Len(pre) + n), m)
+    ELSE LineOk(keys, line, m) /\ ~Contains(line, <<27>>)
+
+\* does the sequence `lines` hold, for each message of `ms` in turn, one correct line per entry of `cols` (the sinks
+\* that write to this stream, in pipeline order; TRUE = that sink colours)?
+Delivered(keys, lines, ms, cols) ==
+    LET k == Len(cols) IN
     /\ Len(lines) = k * Len(ms)
-    /\ \A i \in 1..Len(ms) : \A j \in 1..k : LineOk(keys, lines[(i - 1) * k + j], ms[i])
+    /\ \A i \in 1..Len(ms) : \A j \in 1..k : ConsoleLineOk(keys, lines[(i - 1) * k + j], ms[i], cols[j])
 
 \* The file keys (max_file_size, max_file_count, rotate_on_startup, rotate_daily, compress_old_files) reach the
 \* rotating sink: the scenario plants a log file of an earlier day (`old` lines, modification time two days back) and
@@ -87,9 +111,11 @@ FileObligations(keys, ms, out) ==
 
 IniObligations(keys, msgs, out) ==
     LET ms == Through(keys, msgs)
-        nerr == (IF keys.stderr THEN 1 ELSE 0) + (IF keys.platform THEN 1 ELSE 0)
-    IN  /\ Delivered(keys, out.stdout, ms, IF keys.stdout THEN 1 ELSE 0)
-        /\ Delivered(keys, out.stderr, ms, nerr)
+        \* the stdout sink; on stderr the stderr sink, then the platform sink (standard error here, never coloured)
+        outCols == IF keys.stdout THEN <<keys.colorOut /\ keys.ttyOut>> ELSE <<>>
+        errCols == (IF keys.stderr THEN <<keys.colorErr /\ keys.ttyErr>> ELSE <<>>) \o (IF keys.platform THEN <<FALSE>> ELSE <<>>)
+    IN  /\ Delivered(keys, out.stdout, ms, outCols)
+        /\ Delivered(keys, out.stderr, ms, errCols)
         /\ IF keys.file THEN FileObligations(keys, ms, out) ELSE out.file = <<>>
         /\ out.fileExists = keys.file
 
